@@ -518,6 +518,10 @@ function visitors.Id(context, node, emitter, untypedinit)
     emitter:add_nil_literal()
   elseif attr.comptime then
     emitter:add_literal(attr, untypedinit)
+  elseif type.is_composite and type.size == 0 and not attr.staticstorage and
+         not attr:must_define_at_runtime() then
+    -- zero sized local variables are never declared in C, use a literal in place of their name
+    emitter:add_zeroed_type_literal(type, true)
   else
     emitter:add(context:declname(attr))
   end
